@@ -176,6 +176,7 @@ class Pool:
         self.retries = 0
         self.sim_steps = 0
         self.wall_in_workers = 0.0
+        self.cpu_limit = 90  # seconds of CPU per simulated process (typical run: 0.02 s); exceeding it is reported as livelock
 
     def close(self):
         self.ex.shutdown(wait=True, cancel_futures=True)
@@ -216,7 +217,7 @@ class Pool:
         env["GOTRACEBACK"] = "all"
         t0 = time.time()
         try:
-            p = subprocess.run([self.worker, "-test.run", "^TestSim$", "-test.timeout", "0", "-spec", sp, "-result", rp],
+            p = subprocess.run(["/usr/bin/prlimit", "--cpu=%d" % self.cpu_limit, self.worker, "-test.run", "^TestSim$", "-test.timeout", "0", "-spec", sp, "-result", rp],
                                stdout=subprocess.PIPE, stderr=subprocess.PIPE, env=env, timeout=timeout, cwd="/")
         except subprocess.TimeoutExpired:
             self._cleanup(d, sp, rp)
@@ -239,6 +240,11 @@ class Pool:
             with self.lock:
                 self.sim_steps += r.steps
             return r
+        if p.returncode in (-24, -9, 128 + 24, 128 + 9) and dt > 5:
+            # killed by the CPU-time limit (SIGXCPU, then SIGKILL): a non-yielding loop the tick budget cannot see
+            fake = {"outcome": {"status": "livelock", "blocked": ["cpu limit of %ds exceeded (rc=%s)" % (self.cpu_limit, p.returncode)]},
+                    "stdout_b64": "", "stderr_b64": "", "note": "cpu-limit"}
+            return Result(fake, spec)
         # the worker died without a result: a Go panic / fatal error in the SUT is a finding, not harness trouble
         if "panic:" in errtxt or "fatal error:" in errtxt or "goroutine " in errtxt:
             fake = {"outcome": {"status": "panic", "panic_text": errtxt[-6000:]}, "stdout_b64": "", "stderr_b64": ""}
